@@ -226,7 +226,16 @@ func mutantsOf(carrier string, doc map[string]any) []mutant {
 		sort.Strings(keys)
 		for _, k := range keys {
 			k := k
-			for _, nk := range []string{k + "/pre{zz}", "/{a}-{b}", "no-leading-slash", k + "/{undeclared}"} {
+			repeated := k
+			if i := strings.Index(k, "{"); i >= 0 {
+				if j := strings.Index(k[i:], "}"); j > 0 {
+					repeated = k + "/again/" + k[i:i+j+1] // the same variable twice
+				}
+			}
+			for _, nk := range []string{k + "/pre{zz}", "/{a}-{b}", "no-leading-slash", k + "/{undeclared}", repeated} {
+				if nk == k {
+					continue
+				}
 				nk := nk
 				add("PathKey:"+nk, []string{"paths", k}, func(d any) {
 					m := d.(map[string]any)["paths"].(map[string]any)
@@ -259,7 +268,8 @@ func c15Carriers() map[string]map[string]any {
 	a.Parameters = []aspec.NamedParam{{Name: "Limit", Param: aspec.Param{In: "query", Name: "limit", Schema: aspec.Schema{K: "int32"}}}}
 	a.Headers = []aspec.NamedHeader{{Name: "Next", Header: aspec.Header{Name: "X-Next", Schema: str}}}
 	a.Responses = []aspec.NamedResponse{{Name: "PetOut", R: &aspec.Response{Desc: "a pet", Headers: []aspec.Header{{Name: "X-Next", Ref: "Next"}}, Body: aspec.Body{K: "json", Schema: &aspec.Schema{K: "ref", To: "Pet"}}}}, {Name: "Alias", Alias: "PetOut"}}
-	a.RequestBodies = []aspec.NamedBody{{Name: "PetIn", Body: aspec.Body{K: "json", Schema: &aspec.Schema{K: "ref", To: "NewPet"}, Req: true}}}
+	a.RequestBodies = []aspec.NamedBody{{Name: "PetIn", Body: aspec.Body{K: "json", Schema: &aspec.Schema{K: "ref", To: "NewPet"}, Req: true}},
+		{Name: "Upload", Body: aspec.Body{K: "raw", Media: "application/octet-stream", Req: true}}}
 	t1 := []aspec.Seg{{K: "lit", S: "pets"}}
 	t2 := []aspec.Seg{{K: "lit", S: "pets"}, {K: "var", S: "petId"}}
 	get := simpleOp("GET", t1)
@@ -274,7 +284,11 @@ func c15Carriers() map[string]map[string]any {
 	put := simpleOp("PUT", t2)
 	put.Params = get2.Params
 	put.Body = aspec.Body{K: "raw", Media: "application/octet-stream"}
-	a.Paths = []aspec.PathItem{{Template: t1, Ops: []aspec.Op{get, post}}, {Template: t2, Ops: []aspec.Op{get2, put}}}
+	t3 := []aspec.Seg{{K: "lit", S: "pets"}, {K: "var", S: "petId"}, {K: "lit", S: "photo"}}
+	up := simpleOp("POST", t3)
+	up.Params = get2.Params
+	up.Body = aspec.Body{K: "ref", To: "Upload"}
+	a.Paths = []aspec.PathItem{{Template: t1, Ops: []aspec.Op{get, post}}, {Template: t2, Ops: []aspec.Op{get2, put}}, {Template: t3, Ops: []aspec.Op{up}}}
 	out["petstore"] = a.Document()
 	return out
 }
